@@ -202,6 +202,9 @@ func (o bOp) String() string {
 type baseProgram struct {
 	Init    []bOp
 	Threads [][]bOp
+	// StickyPeer: OngoingSessionPeer keeps naming the peer of the last session after it ended (as an
+	// application that stores the session in a struct and only clears its agent does)
+	StickyPeer bool
 }
 
 func (p baseProgram) String() string {
@@ -212,7 +215,7 @@ func (p baseProgram) String() string {
 		}
 		return strings.Join(s, "; ")
 	}
-	parts := []string{"base-leecher init[" + f(p.Init) + "]"}
+	parts := []string{fmt.Sprintf("base-leecher stickyPeer=%v init[%s]", p.StickyPeer, f(p.Init))}
 	for i, t := range p.Threads {
 		parts = append(parts, fmt.Sprintf("T%d[%s]", i+1, f(t)))
 	}
@@ -224,6 +227,7 @@ func baseBody(p baseProgram) func() {
 		var (
 			l           *basestreamleecher.BaseLeecher
 			session     string
+			lastPeer    string
 			shouldEnd   bool
 			unregDone   = map[string]bool{} // UnregisterPeer(p) has returned and p did not register again since
 			terminated  bool                // Terminate() has returned
@@ -256,10 +260,16 @@ func baseBody(p baseProgram) func() {
 					sched.Fail("session-with-unregistered-peer: StartSession picked %s after UnregisterPeer(%s) had returned", pick, pick)
 				}
 				session = pick
+				lastPeer = pick
 			},
 			TerminateSession:   func() { sched.Logf("TerminateSession(%s)", session); session = "" },
 			OngoingSession:     func() bool { return session != "" },
-			OngoingSessionPeer: func() string { return session },
+			OngoingSessionPeer: func() string {
+				if p.StickyPeer {
+					return lastPeer
+				}
+				return session
+			},
 		})
 		do := func(o bOp) {
 			switch o.K {
@@ -451,7 +461,7 @@ func main() {
 				if quick && len(a)+len(b) > 3 {
 					continue
 				}
-				bprogs = append(bprogs, baseProgram{Init: in, Threads: [][]bOp{a, b}})
+				bprogs = append(bprogs, baseProgram{Init: in, Threads: [][]bOp{a, b}}, baseProgram{Init: in, Threads: [][]bOp{a, b}, StickyPeer: true})
 			}
 		}
 	}
